@@ -57,7 +57,8 @@ def run(ck, an, tier):
     from rules import C15
     from sa.report import Renamed
     from rules import ledger
-    C15.s3(ledger._Only(Renamed(ck, "C15:"), {"configured-length-fixed", "reset-passes-length"}), an)      # the episode length of a replay is the configured one: a per-call override does not stick
+    C15.s3(ledger._Only(Renamed(ck, "C15:"), {"configured-length-fixed", "reset-passes-length"}), an)
+    C15.steps_recomputed(Renamed(ck, "C15:"), an)      # ... and the steps themselves are recomputed at every reset      # the episode length of a replay is the configured one: a per-call override does not stick
     module_level_objects(ck, an)
     s2(ck, an)
     s3(ck, an)
